@@ -29,7 +29,10 @@ from framework import Check, cbool, clist, cpair, cstr, load_corpus  # noqa: E40
 TRUSTED = [
     "Coq 8.16.1 kernel + vm_compute (witness theorems and correspondence evaluation)",
     "hand-written Gallina model coq/Model/Escape.v: (a) CPython 3.12 string-literal lexer/decoder and comment rule, "
-    "validated on every run against tokenize + ast.literal_eval on random literals (\\N{...} deliberately modelled as an error); "
+    "validated on every run against tokenize + ast.literal_eval on random literals; DIFFERENTIAL NOTE: \\N{NAME} is deliberately "
+    "modelled as an error (no Unicode name table): the model is conservative there - it never calls a literal inert that CPython "
+    "rejects, but it rejects \\N{VALID NAME} which CPython accepts; such literals are skipped in relation (i) and counted "
+    "(lexer_literals_skipped_named_escape), payloads containing \\N{ are skipped in the predicted-verdict relation; "
     "(b) one function per rendering site, validated on every run against the real rendering function",
     "textwrap (stdlib) inside DocumentationWriter is modelled by its law 'only white space is edited' (Escape.layoutb), "
     "checked against every real docstring rendered in the run",
@@ -279,6 +282,15 @@ def r_wrapper_doc(typed: bool) -> Callable[[str], str]:
     return r
 
 
+def r_client_desc(t: str) -> str:
+    """client_visitor._generate_client_implementation: info.description inside the APIClient class docstring"""
+    from pyopenapi_gen.ir import IRSpec
+    from pyopenapi_gen.context.render_context import RenderContext
+    from pyopenapi_gen.visit.client_visitor import ClientVisitor
+    ctx = RenderContext(core_package_name="core", output_package_name="client")
+    return ClientVisitor()._generate_client_implementation(IRSpec(title="T", version="1.0", description=t), ctx, [])
+
+
 def _docwriter(role: str) -> Callable[[str], str]:
     def r(t: str) -> str:
         from pyopenapi_gen.core.writers.documentation_writer import DocumentationBlock, DocumentationWriter
@@ -330,6 +342,7 @@ SITES: dict[str, dict] = {
     "field_comment_opt": {"n": 10, "kind": "comment", "f": "F15e", "r": r_field_comment(True), "skip_empty": True},
     "wrapper_doc":    {"n": 11, "kind": "block", "f": "F15k", "r": r_wrapper_doc(False)},
     "wrapper_doc_typed": {"n": 11, "kind": "block", "f": "F15k", "r": r_wrapper_doc(True)},
+    "client_desc":    {"n": 16, "kind": "block", "f": None, "r": r_client_desc, "skip_empty": True},
     "docw_summary":   {"n": 12, "kind": "docw", "f": "F15d", "r": _docwriter("summary"), "skip_empty": True},
     "docw_description": {"n": 12, "kind": "docw", "f": "F15d", "r": _docwriter("description"), "skip_empty": True},
     "docw_argname":   {"n": 12, "kind": "docw", "f": "F15d", "r": _docwriter("argname")},
@@ -529,6 +542,12 @@ def doc(T: dict[str, str] | None = None) -> dict:
                       "parameters": [{"name": "id", "in": "path", "required": True, "schema": {"type": "string"}}],
                       "requestBody": {"required": True, "content": {g("media2"): {"schema": {"type": "string", "format": "binary"}}}},
                       "responses": {"204": {"description": "ok"}}},
+            "delete": {"operationId": "multi_item", "tags": [g("tag")], "summary": "Multi.",
+                       "parameters": [{"name": "id", "in": "path", "required": True, "schema": {"type": "string"}}],
+                       "responses": {"200": {"description": "ok", "content": {     # several response media types: the
+                           "application/json": {"schema": {"$ref": "#/components/schemas/Item"}},   # handler dispatches on
+                           g("rmedia"): {"schema": {"type": "string"}},                             # content_type == <literal>
+                           "text/plain": {"schema": {"type": "integer"}}}}}},
             "put": {"operationId": "set_item", "tags": [g("tag")], "summary": "Set.",
                     "parameters": [{"name": "id", "in": "path", "required": True, "schema": {"type": "string"}}],
                     "requestBody": {"description": g("bodydesc"), "required": True, "content": {
@@ -581,6 +600,7 @@ POSITIONS: dict[str, dict] = {
     "bodydesc":  {"value": False, "sites": [12]},
     "media":     {"value": True, "sites": [7, 14, 12]},
     "media2":    {"value": True, "sites": [20, 12]},
+    "rmedia":    {"value": True, "sites": [7]},      # response handler: elif content_type == python_string_literal(t.lower())
     "schemadesc": {"value": False, "sites": [12]},
     "propdesc":  {"value": False, "sites": [12, 10]},
     "propdesc2": {"value": False, "sites": [12, 10]},
@@ -723,7 +743,7 @@ NAMES = ['$', '_', '\u00e9', '\U0001f600', '\u00b2', 'area_m\u00b2', '\u00bd', '
          'a-b', 'a.b', 'gr\u00f6\u00dfe', '\u540d\u524d', 'x\u00b2', 'user id', 'Global', 'def', 'a_b', 'aB', 'ab', 'true', '__x__', 'A',
          'lambda', '3d', 'x\u0301', 'm\u00b3_per_h', 'half\u00bd', 'n\u2460', "it's", 'x y-z.w', '\u0661\u0662', '\ufb01le', '\uff21b']
 NAME_ALPHA = list("abzAZ019_-. $'") + ['\u00e9', '\u00df', '\u540d', '\u00b2', '\u00b3', '\u00bd', '\u2460', '\u0661', '\U0001f600', '\u0301']
-_TAKEN = {"id", "body", "files", "form_data", "bytes_content", "self", "name", "note", "color", "pet", "bag", "uid", "content_type",
+_TAKEN = {"multi_item", "put_blob", "id", "body", "files", "form_data", "bytes_content", "self", "name", "note", "color", "pet", "bag", "uid", "content_type",
           "d_int", "d_num", "d_bool", "d_arr", "d_obj", "d_none", "d_inlenum", "d_allof", "zqqname", "zqhname", "zqpropname",
           "item", "cat", "dog", "item_d_obj", "item_d_none", "item_d_inlenum", "item_d_allof", "get_item", "put_item", "set_item"}
 
